@@ -284,6 +284,9 @@ const hangLimit = 20 * time.Second
 // deadlock: a parser that started goroutines and waits for them for ever).
 var lastParse string
 
+// EOFWithLast (per run): the readers hand out the last bytes of a file together with io.EOF.
+var EOFWithLast bool
+
 // rmodeFile: the bytes are put into a real file in the process's scratch directory, named by the
 // format's extension, and parsed through the library's file route circuit.Parse(path).
 const rmodeFile = 9
@@ -315,6 +318,7 @@ func safeParse(format int, data []byte, rmode, k int) parseResult {
 	lastParse = fmt.Sprintf("%s input of %d bytes (sha256 %s)", []string{"mpclc", "bristol"}[format], len(data), shortSum(data))
 	ch := make(chan parseResult, 1)
 	rd := simdisk.NewReader(data, rmode, k)
+	rd.EOFWithLast = EOFWithLast
 	start := time.Now()
 	go func() {
 		var pr parseResult
@@ -521,6 +525,10 @@ func (w *world) Run(t *rt.Tape, trace bool) *core.Result {
 	core.BeginRun(t)
 	var failure *core.Failure
 	var smp sample
+	EOFWithLast = t.Choose(rt.SGen, 4) == 0
+	if EOFWithLast {
+		res.Reach["reader.last-bytes-with-EOF"]++
+	}
 	rr := rt.Run(rt.Config{Trace: trace, NoProgress: core.NoProgressDefault}, t, func() {
 		if t.Choose(rt.SGen, 6) == 0 {
 			failure = w.concurrent(t, res, &smp)
